@@ -12,13 +12,7 @@ package capnp
 
 // ---------------------------------------------------------------- pointer-field writers
 
-// writePtr is not verified (deep copy, far and double-far emission: DESIGN 5.4); what its callers
-// rely on is stated and ASSUMED: it fails or succeeds without panicking for a valid slot.
-//@ func Segment.writePtr -> err
-//@   props C18
-//@   trusted
-//@   requires segOK(s) && M(off)+8 <= M(len(s.data)) && wfPtr(src)
-//@   modifies *
+// (Segment.writePtr: see verif_contracts_writeptr.go - partial contract, no postcondition on its effect)
 
 //@ func Struct.SetPtr -> err
 //@   props C04 C18
